@@ -60,6 +60,8 @@ def gen_project(rnd):
     body_shape = rnd.choice(["return-expr", "locals+return", "no-return", "two-statements-no-return", "multi-return",
                              "uses-global", "uses-import", "local-collides"])
     params = rnd.choice([["a"], ["a", "b=2"], ["a", "b=2", "c=5"], ["a", "b"], []])
+    # spelling of the body's two locals (the clashing host uses the same spellings): plain, or like builtins
+    lt, lu = rnd.choice([("t", "u")] * 3 + [("sum", "max"), ("id", "u")])
     host = rnd.choice(["function", "function", "function", "method"])
     pnames = [p.split("=")[0] for p in params]
     expr = " + ".join(pnames) if pnames else "4"
@@ -74,7 +76,7 @@ def gen_project(rnd):
     if body_shape == "return-expr":
         lib.append(f"{ind}return ({expr}) * 2")
     elif body_shape == "locals+return":
-        lib += [f"{ind}t = {expr}", f"{ind}u = t * 3", f"{ind}return u - t"]
+        lib += [f"{ind}{lt} = {expr}", f"{ind}{lu} = {lt} * 3", f"{ind}return {lu} - {lt}"]
     elif body_shape == "no-return":
         lib.append(f"{ind}shared.append({expr})")
     elif body_shape == "two-statements-no-return":
@@ -161,8 +163,8 @@ def gen_project(rnd):
         hargs = ", ".join("v" for p in params if "=" not in p)
         hcall = f"{tgt}({hargs})"
         if body_shape not in ("no-return", "two-statements-no-return", "multi-return"):
-            L += ["", "def host_plain(v):", f"    return {hcall}", "", "def host_clash(v):", "    t = 100", "    u = 7",
-                  "    n = 5", f"    r = {hcall}", "    return r + t + u + n", "",
+            L += ["", "def host_plain(v):", f"    return {hcall}", "", "def host_clash(v):", f"    {lt} = 100", f"    {lu} = 7",
+                  "    n = 5", f"    r = {hcall}", f"    return r + {lt} + {lu} + n", "",
                   f"print('c{ci}', 'hosts', host_plain(3), host_clash(3))"]
             feats.add("call-in-function-host")
         L.append(f"print('c{ci}', 'v', {vc} + 1, {vc})")
